@@ -11,7 +11,6 @@ import (
 	"os"
 	"strings"
 
-	"golang.org/x/text/encoding/charmap"
 
 	"github.com/nlnwa/whatwg-url/canonicalizer"
 	"github.com/nlnwa/whatwg-url/url"
@@ -67,8 +66,10 @@ func optsFromTok(tok string) ([]url.ParserOption, int, int) {
 	if post != 0 {
 		opts = append(opts, url.WithPostParseHostFunc(hostFns[post]))
 	}
-	if f[3] == "1" {
-		opts = append(opts, url.WithEncodingOverride(charmap.ISO8859_1))
+	if f[3] != "0" {
+		if cm := charmapOfTok(f[3]); cm != nil {
+			opts = append(opts, url.WithEncodingOverride(cm))
+		}
 	}
 	m := map[string]string{}
 	if f[4] != "-" {
